@@ -1652,4 +1652,127 @@ impl Family for MultisigFamily {
     fn run(&self, prop: &str, case: &MCase, ctx: &mut CaseCtx) -> Result<(), Violation> {
         run_mcase(prop, case, ctx)
     }
+    fn decode(&self, prop: &str, u: &mut arbitrary::Unstructured) -> Option<MCase> {
+        Some(decode_mcase(prop, u))
+    }
+}
+
+// ------------------------------------------------------------------ byte decoder (fuzz front-end)
+
+pub fn decode_mcase(prop: &str, u: &mut arbitrary::Unstructured) -> MCase {
+    use vcore::amounts::{arb_below, arb_bool};
+    let d_actor = |u: &mut arbitrary::Unstructured| arb_below(u, N_ACTORS) as u8;
+    let d_weight = |u: &mut arbitrary::Unstructured| -> u64 {
+        match arb_below(u, 12) {
+            0 | 1 => 0,
+            2..=4 => 1,
+            5..=8 => 1 + arb_below(u, 5) as u64,
+            9 => 6 + arb_below(u, 94) as u64,
+            10 => 1u64 << 32,
+            _ => 1u64 << 60,
+        }
+    };
+    let d_p = |u: &mut arbitrary::Unstructured| -> PSpec {
+        match arb_below(u, 4) {
+            0 => PSpec::Nine([500_000_000u32, 510_000_000, 666_666_667, 750_000_000, 1_000_000_000, 100_000_000, 333_333_334, 1][arb_below(u, 8)]),
+            1 => PSpec::Nine(u.arbitrary::<u32>().unwrap_or(0) % 1_000_000_001),
+            _ => PSpec::Near { j: u.arbitrary().unwrap_or(0), sub: arb_below(u, 3) as u8, delta: arb_below(u, 3) as u8 },
+        }
+    };
+    let fixed = prop != "C15" && arb_bool(u, 1, 2);
+    let flavour = if fixed {
+        Flavour::Fixed
+    } else {
+        let executor = match arb_below(u, if prop == "C05" { 3 } else { 10 }) {
+            1 => ExecSpec::Member,
+            2 => ExecSpec::Only(d_actor(u)),
+            _ => ExecSpec::Anyone,
+        };
+        let deposit = if prop == "C15" { Some(DepSpec { cw20: arb_bool(u, 1, 2), amount: 1 + arb_below(u, 30) as u128, refund_failed: arb_bool(u, 1, 2) }) } else { None };
+        Flavour::Flex { executor, deposit, hook: arb_bool(u, 1, 2), settle_blocks: if prop == "C06" && arb_bool(u, 1, 7) { 0 } else { 1 + arb_below(u, 2) as u8 } }
+    };
+    let n_v = 1 + arb_below(u, N_ACTORS);
+    let mut voters: Vec<(u8, u64)> = vec![];
+    let irregular = fixed && arb_bool(u, 1, if prop == "C06" { 2 } else { 10 });
+    for i in 0..n_v {
+        let who = if irregular { d_actor(u) } else { i as u8 };
+        voters.push((who, d_weight(u)));
+    }
+    let thr = match arb_below(u, 3) {
+        0 => ThrSpec::Count(u.arbitrary().unwrap_or(0)),
+        1 => ThrSpec::Pct(d_p(u)),
+        _ => ThrSpec::Quorum(d_p(u), d_p(u)),
+    };
+    let period = if arb_bool(u, 1, 2) { Dur::Height(1 + arb_below(u, 11) as u16) } else { Dur::Time(1 + arb_below(u, 119) as u32) };
+    let d_by = |u: &mut arbitrary::Unstructured| -> By {
+        match arb_below(u, 6) {
+            0 => By::Actor(d_actor(u)),
+            1 | 2 => By::Member(u.arbitrary().unwrap_or(0)),
+            _ => By::Fresh(u.arbitrary().unwrap_or(0)),
+        }
+    };
+    let d_target = |u: &mut arbitrary::Unstructured| -> Target {
+        if arb_bool(u, 3, 4) {
+            Target::Apt(u.arbitrary().unwrap_or(0))
+        } else {
+            Target::Any(u.arbitrary().unwrap_or(0))
+        }
+    };
+    let d_ref = |u: &mut arbitrary::Unstructured| -> PRef {
+        if arb_bool(u, 1, 3) {
+            PRef::Own
+        } else {
+            PRef::Other(u.arbitrary().unwrap_or(0))
+        }
+    };
+    let n_ops = arb_below(u, 40);
+    let mut ops = vec![];
+    for _ in 0..n_ops {
+        let op = match arb_below(u, 16) {
+            0..=2 => {
+                let msgs = match prop {
+                    "C05" => {
+                        let n = arb_below(u, 4);
+                        (0..n)
+                            .map(|_| match arb_below(u, 8) {
+                                0..=3 => PMsg::Record,
+                                4 => PMsg::BankSend { to: d_actor(u), amt: arb_below(u, 60) as u32 },
+                                5 => PMsg::ReExecute(d_ref(u)),
+                                6 => PMsg::ReVote(d_ref(u)),
+                                _ => PMsg::ReClose(d_ref(u)),
+                            })
+                            .collect()
+                    }
+                    "C15" => (0..arb_below(u, 2)).map(|_| PMsg::Record).collect(),
+                    _ => vec![],
+                };
+                let latest = match arb_below(u, 6) {
+                    0 => Some(ExpSpec::Height(u.int_in_range(-2i32..=13).unwrap_or(0))),
+                    1 => Some(ExpSpec::Time(u.int_in_range(-10i64..=149).unwrap_or(0))),
+                    2 => Some(ExpSpec::Never),
+                    _ => None,
+                };
+                let pay = if prop == "C15" { [Pay::Exact, Pay::Exact, Pay::Exact, Pay::None, Pay::Short, Pay::Excess, Pay::WrongDenom, Pay::ExtraCoin][arb_below(u, 8)] } else { Pay::None };
+                Op::Propose { by: d_by(u), msgs, latest, pay }
+            }
+            3..=7 => Op::Vote { by: d_by(u), prop: d_target(u), vote: [0u8, 0, 0, 1, 1, 2, 3][arb_below(u, 7)] },
+            8 | 9 => Op::Execute { by: d_by(u), prop: d_target(u) },
+            10 => Op::Close { by: d_by(u), prop: d_target(u) },
+            11 => Op::Advance { blocks: arb_below(u, 4) as u8, secs: arb_below(u, 40) as u16 },
+            12 => Op::ToExpiry { prop: u.arbitrary().unwrap_or(0), delta: arb_below(u, 5) as i8 - 2 },
+            13 => {
+                if prop == "C06" || arb_bool(u, 1, 4) {
+                    let na = arb_below(u, 3);
+                    let nr = arb_below(u, 2);
+                    Op::GroupUpdate { add: (0..na).map(|_| (d_actor(u), d_weight(u))).collect(), remove: (0..nr).map(|_| d_actor(u)).collect() }
+                } else {
+                    Op::Advance { blocks: 1, secs: 5 }
+                }
+            }
+            14 => Op::Fault { on: arb_bool(u, 1, 2) },
+            _ => Op::Fund { amt: arb_below(u, 200) as u32 },
+        };
+        ops.push(op);
+    }
+    MCase { flavour, voters, thr, period, ops }
 }
